@@ -61,24 +61,31 @@ var (
 )
 
 // IsNotExist is os.IsNotExist.
+//go:norace
 func IsNotExist(err error) bool { return os.IsNotExist(err) }
 
 // IsExist is os.IsExist.
+//go:norace
 func IsExist(err error) bool { return os.IsExist(err) }
 
 // Getenv is os.Getenv.
+//go:norace
 func Getenv(k string) string { return os.Getenv(k) }
 
 // Getpid is os.Getpid.
+//go:norace
 func Getpid() int { return os.Getpid() }
 
 // TempDir is os.TempDir.
+//go:norace
 func TempDir() string { return os.TempDir() }
 
 // Getwd is os.Getwd.
+//go:norace
 func Getwd() (string, error) { return os.Getwd() }
 
 // Exit is os.Exit.
+//go:norace
 func Exit(code int) { os.Exit(code) }
 
 type node struct {
@@ -89,6 +96,7 @@ type node struct {
 	mtime    time.Time
 }
 
+//go:norace
 func (n *node) clone() *node {
 	c := &node{dir: n.dir, mode: n.mode, mtime: n.mtime}
 	if n.dir {
@@ -125,17 +133,20 @@ type FS struct {
 }
 
 // New returns an empty tree containing only "/".
+//go:norace
 func New() *FS {
 	return &FS{root: &node{dir: true, children: map[string]*node{}, mode: 0o777 | fs.ModeDir}, Counts: map[string]int{}}
 }
 
 // Snapshot deep-copies the tree (hooks and counters are not copied).
+//go:norace
 func (f *FS) Snapshot() *FS {
 	return &FS{root: f.root.clone(), Counts: map[string]int{}}
 }
 
 // AppendRaw appends data to the file at path in this tree, creating the file
 // node if its parent exists (used to build partial-write crash states).
+//go:norace
 func (f *FS) AppendRaw(path string, off int64, data []byte) {
 	dir, name := filepath.Split(clean(path))
 	p := f.walk(dir)
@@ -155,6 +166,7 @@ func (f *FS) AppendRaw(path string, off int64, data []byte) {
 }
 
 // Dump lists every path with file sizes, sorted (diagnostics, evidence samples).
+//go:norace
 func (f *FS) Dump() []string {
 	var out []string
 	var rec func(p string, n *node)
@@ -179,6 +191,7 @@ func (f *FS) Dump() []string {
 	return out
 }
 
+//go:norace
 func itoa(i int) string {
 	if i == 0 {
 		return "0"
@@ -196,15 +209,18 @@ func itoa(i int) string {
 const valKey = "simfs"
 
 // Install makes fsys the file system seen by instrumented code in sim.
-func Install(s *simrt.Sim, fsys *FS) { s.Vals[valKey] = fsys }
+//go:norace
+func Install(s *simrt.Sim, fsys *FS) { s.SetVal(valKey, fsys) }
 
 // Installed returns the FS installed in s, or nil.
+//go:norace
 func Installed(s *simrt.Sim) *FS {
-	f, _ := s.Vals[valKey].(*FS)
+	f, _ := s.Val(valKey).(*FS)
 	return f
 }
 
 // cur returns the calling task and its FS; (nil,nil) means "use the real os".
+//go:norace
 func cur() (*simrt.Task, *FS) {
 	t := simrt.Current()
 	if t == nil {
@@ -217,11 +233,13 @@ func cur() (*simrt.Task, *FS) {
 	return t, f
 }
 
+//go:norace
 func clean(p string) string {
 	p = filepath.Clean("/" + p)
 	return p
 }
 
+//go:norace
 func (f *FS) walk(path string) *node {
 	path = clean(path)
 	n := f.root
@@ -237,15 +255,18 @@ func (f *FS) walk(path string) *node {
 	return n
 }
 
+//go:norace
 func (f *FS) parent(path string) (*node, string) {
 	path = clean(path)
 	dir, name := filepath.Split(path)
 	return f.walk(dir), name
 }
 
+//go:norace
 func perr(op, path string, err error) error { return &PathError{Op: op, Path: path, Err: err} }
 
 // step announces a mutating call: scheduling point, hook, error injection.
+//go:norace
 func (f *FS) step(t *simrt.Task, kind, path string, data []byte) error {
 	t.Yield("fs " + kind)
 	f.Steps++
@@ -266,19 +287,26 @@ type fileInfo struct {
 	size int64
 }
 
+//go:norace
 func (fi fileInfo) Name() string { return fi.name }
+//go:norace
 func (fi fileInfo) Size() int64  { return fi.size }
+//go:norace
 func (fi fileInfo) Mode() FileMode {
 	if fi.n.dir {
 		return fi.n.mode | fs.ModeDir
 	}
 	return fi.n.mode
 }
+//go:norace
 func (fi fileInfo) ModTime() time.Time { return fi.n.mtime }
+//go:norace
 func (fi fileInfo) IsDir() bool        { return fi.n.dir }
+//go:norace
 func (fi fileInfo) Sys() interface{}   { return nil }
 
 // Stat is os.Stat.
+//go:norace
 func Stat(name string) (FileInfo, error) {
 	t, f := cur()
 	if f == nil {
@@ -293,6 +321,7 @@ func Stat(name string) (FileInfo, error) {
 }
 
 // Lstat is os.Lstat.
+//go:norace
 func Lstat(name string) (FileInfo, error) {
 	if _, f := cur(); f == nil {
 		return os.Lstat(name)
@@ -301,6 +330,7 @@ func Lstat(name string) (FileInfo, error) {
 }
 
 // Mkdir is os.Mkdir.
+//go:norace
 func Mkdir(name string, perm FileMode) error {
 	t, f := cur()
 	if f == nil {
@@ -312,6 +342,7 @@ func Mkdir(name string, perm FileMode) error {
 	return f.mkdir(name, perm)
 }
 
+//go:norace
 func (f *FS) mkdir(name string, perm FileMode) error {
 	p, base := f.parent(name)
 	if p == nil || !p.dir {
@@ -325,6 +356,7 @@ func (f *FS) mkdir(name string, perm FileMode) error {
 }
 
 // MkdirAll is os.MkdirAll; each directory created is one step.
+//go:norace
 func MkdirAll(path string, perm FileMode) error {
 	t, f := cur()
 	if f == nil {
@@ -362,6 +394,7 @@ func MkdirAll(path string, perm FileMode) error {
 }
 
 // Remove is os.Remove.
+//go:norace
 func Remove(name string) error {
 	t, f := cur()
 	if f == nil {
@@ -377,6 +410,7 @@ func Remove(name string) error {
 	return f.remove(name)
 }
 
+//go:norace
 func (f *FS) remove(name string) error {
 	p, base := f.parent(name)
 	if p == nil || !p.dir {
@@ -395,6 +429,7 @@ func (f *FS) remove(name string) error {
 
 // RemoveAll is os.RemoveAll, expanded into individual removes (each a step)
 // in an order decided by the run's choice source.
+//go:norace
 func RemoveAll(path string) error {
 	t, f := cur()
 	if f == nil {
@@ -443,6 +478,7 @@ func RemoveAll(path string) error {
 	return rec(clean(path))
 }
 
+//go:norace
 func (f *FS) orderedNames(t *simrt.Task, n *node) []string {
 	names := make([]string, 0, len(n.children))
 	for k := range n.children {
@@ -462,6 +498,7 @@ func (f *FS) orderedNames(t *simrt.Task, n *node) []string {
 }
 
 // Rename is os.Rename.
+//go:norace
 func Rename(oldpath, newpath string) error {
 	t, f := cur()
 	if f == nil {
@@ -506,14 +543,17 @@ type File struct {
 }
 
 // Create is os.Create.
+//go:norace
 func Create(name string) (*File, error) {
 	return OpenFile(name, O_RDWR|O_CREATE|O_TRUNC, 0o666)
 }
 
 // Open is os.Open.
+//go:norace
 func Open(name string) (*File, error) { return OpenFile(name, O_RDONLY, 0) }
 
 // OpenFile is os.OpenFile.
+//go:norace
 func OpenFile(name string, flag int, perm FileMode) (*File, error) {
 	t, f := cur()
 	if f == nil {
@@ -564,6 +604,7 @@ func OpenFile(name string, flag int, perm FileMode) (*File, error) {
 }
 
 // Name returns the name of the file.
+//go:norace
 func (f *File) Name() string {
 	if f.real != nil {
 		return f.real.Name()
@@ -572,6 +613,7 @@ func (f *File) Name() string {
 }
 
 // Fd returns the real descriptor or an invalid one.
+//go:norace
 func (f *File) Fd() uintptr {
 	if f.real != nil {
 		return f.real.Fd()
@@ -580,6 +622,7 @@ func (f *File) Fd() uintptr {
 }
 
 // Read implements io.Reader.
+//go:norace
 func (f *File) Read(p []byte) (int, error) {
 	if f.real != nil {
 		return f.real.Read(p)
@@ -599,6 +642,7 @@ func (f *File) Read(p []byte) (int, error) {
 }
 
 // ReadAt implements io.ReaderAt.
+//go:norace
 func (f *File) ReadAt(p []byte, off int64) (int, error) {
 	if f.real != nil {
 		return f.real.ReadAt(p, off)
@@ -617,6 +661,7 @@ func (f *File) ReadAt(p []byte, off int64) (int, error) {
 }
 
 // Write implements io.Writer; each call is one FS step.
+//go:norace
 func (f *File) Write(p []byte) (int, error) {
 	if f.real != nil {
 		return f.real.Write(p)
@@ -650,6 +695,7 @@ func (f *File) Write(p []byte) (int, error) {
 }
 
 // WriteOffset is the offset the next write lands at (for partial-write snapshots).
+//go:norace
 func (f *FS) stepWrite(t *simrt.Task, file *File, p []byte) error {
 	t.Yield("fs write")
 	f.Steps++
@@ -665,9 +711,11 @@ func (f *FS) stepWrite(t *simrt.Task, file *File, p []byte) error {
 }
 
 // WriteString is like Write.
+//go:norace
 func (f *File) WriteString(s string) (int, error) { return f.Write([]byte(s)) }
 
 // Seek implements io.Seeker.
+//go:norace
 func (f *File) Seek(offset int64, whence int) (int64, error) {
 	if f.real != nil {
 		return f.real.Seek(offset, whence)
@@ -688,6 +736,7 @@ func (f *File) Seek(offset int64, whence int) (int64, error) {
 }
 
 // Close closes the file.
+//go:norace
 func (f *File) Close() error {
 	if f.real != nil {
 		return f.real.Close()
@@ -700,6 +749,7 @@ func (f *File) Close() error {
 }
 
 // Sync is a no-op under simulation (process-death crash model).
+//go:norace
 func (f *File) Sync() error {
 	if f.real != nil {
 		return f.real.Sync()
@@ -711,6 +761,7 @@ func (f *File) Sync() error {
 }
 
 // Truncate changes the size of the file.
+//go:norace
 func (f *File) Truncate(size int64) error {
 	if f.real != nil {
 		return f.real.Truncate(size)
@@ -730,6 +781,7 @@ func (f *File) Truncate(size int64) error {
 }
 
 // Stat returns the FileInfo of the file.
+//go:norace
 func (f *File) Stat() (FileInfo, error) {
 	if f.real != nil {
 		return f.real.Stat()
@@ -737,6 +789,7 @@ func (f *File) Stat() (FileInfo, error) {
 	return fileInfo{name: filepath.Base(f.path), n: f.n, size: int64(len(f.n.data))}, nil
 }
 
+//go:norace
 func (f *File) listDir() error {
 	if !f.n.dir {
 		return perr("readdirent", f.path, syscall.ENOTDIR)
@@ -759,6 +812,7 @@ func (f *File) listDir() error {
 }
 
 // Readdirnames is (*os.File).Readdirnames; the order is seeded.
+//go:norace
 func (f *File) Readdirnames(n int) ([]string, error) {
 	if f.real != nil {
 		return f.real.Readdirnames(n)
@@ -786,10 +840,13 @@ func (f *File) Readdirnames(n int) ([]string, error) {
 
 type dirEntry struct{ fileInfo }
 
+//go:norace
 func (d dirEntry) Type() FileMode          { return d.Mode().Type() }
+//go:norace
 func (d dirEntry) Info() (FileInfo, error) { return d.fileInfo, nil }
 
 // ReadDir is (*os.File).ReadDir.
+//go:norace
 func (f *File) ReadDir(n int) ([]DirEntry, error) {
 	if f.real != nil {
 		return f.real.ReadDir(n)
@@ -805,6 +862,7 @@ func (f *File) ReadDir(n int) ([]DirEntry, error) {
 }
 
 // Readdir is (*os.File).Readdir.
+//go:norace
 func (f *File) Readdir(n int) ([]FileInfo, error) {
 	if f.real != nil {
 		return f.real.Readdir(n)
@@ -820,6 +878,7 @@ func (f *File) Readdir(n int) ([]FileInfo, error) {
 }
 
 // ReadDir is os.ReadDir (sorted by name, like os).
+//go:norace
 func ReadDir(name string) ([]DirEntry, error) {
 	t, f := cur()
 	if f == nil {
@@ -847,6 +906,7 @@ func ReadDir(name string) ([]DirEntry, error) {
 }
 
 // ReadFile is os.ReadFile.
+//go:norace
 func ReadFile(name string) ([]byte, error) {
 	t, f := cur()
 	if f == nil {
@@ -864,6 +924,7 @@ func ReadFile(name string) ([]byte, error) {
 }
 
 // WriteFile is os.WriteFile (create/truncate step, then one write step).
+//go:norace
 func WriteFile(name string, data []byte, perm FileMode) error {
 	if _, f := cur(); f == nil {
 		return os.WriteFile(name, data, perm)
@@ -880,6 +941,7 @@ func WriteFile(name string, data []byte, perm FileMode) error {
 }
 
 // Truncate is os.Truncate.
+//go:norace
 func Truncate(name string, size int64) error {
 	if _, f := cur(); f == nil {
 		return os.Truncate(name, size)
@@ -892,6 +954,7 @@ func Truncate(name string, size int64) error {
 }
 
 // Chmod is os.Chmod (no-op under simulation).
+//go:norace
 func Chmod(name string, mode FileMode) error {
 	if _, f := cur(); f == nil {
 		return os.Chmod(name, mode)
@@ -900,6 +963,7 @@ func Chmod(name string, mode FileMode) error {
 }
 
 // Chtimes is os.Chtimes.
+//go:norace
 func Chtimes(name string, atime, mtime time.Time) error {
 	_, f := cur()
 	if f == nil {
@@ -913,6 +977,7 @@ func Chtimes(name string, atime, mtime time.Time) error {
 }
 
 // MkdirTemp is os.MkdirTemp.
+//go:norace
 func MkdirTemp(dir, pattern string) (string, error) {
 	if _, f := cur(); f == nil {
 		return os.MkdirTemp(dir, pattern)
@@ -921,6 +986,7 @@ func MkdirTemp(dir, pattern string) (string, error) {
 }
 
 // CreateTemp is os.CreateTemp; under simulation the name is deterministic.
+//go:norace
 func CreateTemp(dir, pattern string) (*File, error) {
 	t, f := cur()
 	if f == nil {
